@@ -6,7 +6,7 @@
    relabel as a whole, relabelDisjointFrom, Betti invariance. *)
 From Coq Require Import String ZArith Bool Arith List.
 From SV Require Import Names NamesFacts ListFacts Rep Fresh Complex Atomic RepInv Reach RelabelProofs Homology RelabelAll RelabelPhi.
-From SV Require ClosedReach AttrInv BulkRenamed Shapes DisjointRen.
+From SV Require ClosedReach AttrInv BulkRenamed Shapes DisjointRen CopyAttrs BulkRenamedAttrs.
 Import ListNotations.
 
 Theorem C15_one_rename_carries_structure_partial :
@@ -127,3 +127,20 @@ Theorem C15_relabelDisjointFrom_leaves_no_shared_name :
   (forall s, containsSimplex r s = true -> containsSimplex c s = false -> containsSimplex r' s = true).
 Proof. exact DisjointRen.relabelDisjointFrom_spec. Qed.
 Print Assumptions C15_relabelDisjointFrom_leaves_no_shared_name.
+
+(* ... and it preserves the attributes: every source simplex s arrives as phi(s) with a dictionary of the receiver's own
+   (a new cell) that holds what the source's dictionary holds; the receiver's earlier dictionaries keep their contents; no
+   dictionary of another owner is written.  (CopyAttrs.ainv uid r: the receiver owns its dictionaries, allocated in
+   increasing order -- every complex whose dictionaries the library allocated.) *)
+Theorem C15_bulk_add_under_a_renaming_preserves_attributes :
+  forall rn uid, rn <> RNone -> forall (src : srcview) hp r st ns hp' r' st' ns',
+  CopyAttrs.ainv uid r -> (forall s fs h, In (s, (fs, h)) src -> fst h <> uid) ->
+  addFrom_loop hp r rn st src ns = (hp', r', st', Ok ns') ->
+  let phi := memo_of st' in
+  CopyAttrs.ainv uid r' /\
+  (forall s fs h, In (s, (fs, h)) src ->
+     exists h', assoc (phi s) (r_attr r') = Some h' /\ fst h' = uid /\ heap_get hp' h' = heap_get hp h) /\
+  (forall s h', assoc s (r_attr r) = Some h' -> assoc s (r_attr r') = Some h' /\ heap_get hp' h' = heap_get hp h') /\
+  (forall h0, fst h0 <> uid -> heap_get hp' h0 = heap_get hp h0).
+Proof. exact BulkRenamedAttrs.bulk_add_renamed_attrs. Qed.
+Print Assumptions C15_bulk_add_under_a_renaming_preserves_attributes.
